@@ -31,7 +31,7 @@ def load_known(prop):
 
 
 def write_replay(prop, n, rec):
-    d = os.path.join(VERIF, "replays")
+    d = os.environ.get("PYVC_REPLAY_DIR") or os.path.join(VERIF, "replays")
     os.makedirs(d, exist_ok=True)
     path = os.path.join(d, f"{prop}-{n}.json")
     with open(path, "w") as f:
@@ -141,8 +141,9 @@ def finish(rep, prop, tier, seed, level, meta, t0, verbose=False):
         "wall_s": round(time.time() - t0, 2),
         "violations": len(violations),
     }
-    os.makedirs(os.path.join(VERIF, "evidence"), exist_ok=True)
-    with open(os.path.join(VERIF, "evidence", f"{prop}.json"), "w") as f:
+    evdir = os.environ.get("PYVC_EVIDENCE_DIR") or os.path.join(VERIF, "evidence")
+    os.makedirs(evdir, exist_ok=True)
+    with open(os.path.join(evdir, f"{prop}.json"), "w") as f:
         json.dump(ev, f, indent=1, default=str)
     print(f"[{prop}] tier={tier} obligations={len(deductive)} discharged={len(discharged)} "
           f"refuted={len(violations)} undecided={len(undecided)} errors={len(rep.errors)} "
